@@ -1120,8 +1120,8 @@ def extract_fn(repo, spec, features):
             else:
                 head = f'let {vvar} = {expr_src}; let mut {ivar} = 0; while {ivar} < {vvar}.len() '
                 bind = f' let {xvar} = {amp}{vvar}[{ivar}]; {ivar} += 1;'
-            if any(is_id(T[k], 'continue') or is_id(T[k], 'break') for k in range(b, be)):
-                raise ExtractError(f'R2(C) refused: loop {n_} of {spec["name"]} contains continue/break')
+            # (`continue` / `break` need no rewriting in shapes C / D: the index is stepped at the top of the body,
+            #  before the element is bound, so jumping to the loop test or out of the loop leaves it as the iterator would)
             edits.add(T[li].start, T[b].start, head, 'rewrite', 'R2 header')
             edits.add(T[b].end, T[b].end, bind, 'rewrite', 'R2 bind')
             log.append({'step': 'R2', 'line': sf.line_of(T[li].start), 'before': txt.replace(' ', ''),
